@@ -43,9 +43,26 @@ def binary_table(R):
     return table, f
 
 
+def _variants_of_world(fa, world):
+    """most specific token / keyword variant names asserted by a world's discriminant facts; '*' for a catch-all edge"""
+    names = []
+    star = False
+    for k, v in world:
+        a = fa.atoms.get(k, {})
+        if a.get("kind") != "discr" or not isinstance(v, str):
+            continue
+        if v.startswith("!"):
+            star = True
+        else:
+            names.append(v)
+    return names, star
+
+
 def token_table(R):
-    """constants returned by Parser::get_token_precedence per token / keyword variant"""
+    """constants returned by Parser::get_token_precedence per token / keyword variant (path facts: or-patterns, nested matches and
+    named constants are all the same)"""
     f = R.need_fn(PARSER + "get_token_precedence")
+    fa = PR.facts(f)
     res = {}
     default = None
     for i, s in f.stmts():
@@ -54,23 +71,15 @@ def token_table(R):
             if op["k"] != "const" or "int" not in op:
                 continue
             val = op["int"]
-            labels = []
-            for gsw, lab, tgt in F.guards_dominating(f, i):
-                info = F.switch_info(f, gsw)
-                if info and info[0] == "discr":
-                    vn = F.variant_of_label(info[1], lab)
-                    if vn:
-                        labels.append(vn)
-                    elif lab == "otherwise":
-                        labels.append("*")
-            if "*" in labels or not labels:
-                default = val if default is None or "*" in labels else default
-                if not labels or labels == ["*"] or all(l in ("*", "Keyword") for l in labels):
+            for w in (fa.worlds_at(i) or []):
+                names, star = _variants_of_world(fa, w)
+                specific = [n for n in names if n not in ("Keyword", "Ok", "Err", "Some", "None", "Continue", "Break")]
+                if specific and not star:
+                    for n in specific:
+                        res[n] = val
+                elif star or not specific:
+                    # a catch-all arm (`_ => ..`), possibly nested under Keyword(_)
                     default = val
-                    continue
-            name = [l for l in labels if l not in ("Keyword", "*")]
-            if name:
-                res[name[-1] if len(name) == 1 else name[0]] = val
     return res, default, f
 
 
@@ -219,6 +228,100 @@ def _climb_exclusions(R, f, rec, p=None):
         R.ok("C13.operand", "climb", "extension skipped only for %s" % (sorted(excluded) or "no operator"), c.loc())
 
 
+REL_NEG = {"Lt": "Ge", "Ge": "Lt", "Gt": "Le", "Le": "Gt"}
+REL_SWAP = {"Lt": "Gt", "Gt": "Lt", "Le": "Ge", "Ge": "Le"}
+
+
+def _climb_semantics(P, f, rec, cmp_ops):
+    """decide the two precedence tests of the climbing loop by meaning, not by spelling:
+       (1) the loop goes on exactly when `token_precedence >= minimum precedence` (so equal precedence associates to the left);
+       (2) the right operand is extended exactly when the next operator's precedence is strictly greater, with token_precedence + 1."""
+    out = []
+    local_call_blocks = set(c.bb for c in f.calls if P.callee_keys(f, c))
+    prec_args = [a for a in range(1, f.arg_count + 1) if f.local_ty(a) == "i32"]
+
+    def switch_of(i, st):
+        l = st["pl"]["l"]
+        for sw in sorted(f.reach):
+            t = f.blocks[sw]["term"]
+            if t["k"] != "switch" or t["discr"].get("ty") != "bool":
+                continue
+            pos, os_ = F.bool_edge_polarity(f, sw, "otherwise")
+            for o in os_:
+                if o.kind == "binop" and o.place["l"] is st["rv"]["l"] and o.place["r"] is st["rv"]["r"]:
+                    zero = [b for v, b in t["targets"] if v == "0"]
+                    if zero:
+                        return sw, (t["otherwise"], zero[0]) if pos else (zero[0], t["otherwise"])
+        return None, None
+
+    def is_param(op):
+        return op["k"] in ("copy", "move") and any(o.kind == "arg" and o.arg in prec_args for o in F.origins(f, op, depth=6, through_calls=False))
+
+    inc_ok = False
+    inc_left = None
+    for c in rec:
+        for o in F.origins(f, c.args[1], depth=6, through_calls=False):
+            if o.kind == "binop" and o.extra in ("Add", "AddWithOverflow"):
+                cs = [x.get("int") for x in (o.place["l"], o.place["r"]) if x["k"] == "const"]
+                if cs == [1]:
+                    inc_ok = True
+                    inc_left = o.place["l"] if o.place["l"]["k"] != "const" else o.place["r"]
+    if not inc_ok:
+        out.append(("increment", "the right operand is not parsed at token_precedence + 1", rec[0].loc()))
+    seen_loop = seen_ext = False
+    for i, st in cmp_ops:
+        sw, tgts = switch_of(i, st)
+        if sw is None:
+            continue
+        t_true, t_false = tgts
+        op = st["rv"]["op"]
+        l_, r_ = st["rv"]["l"], st["rv"]["r"]
+        if is_param(l_) != is_param(r_):
+            seen_loop = True
+            rel = op if is_param(r_) else REL_SWAP[op]          # token_precedence REL minimum, holds on the true edge
+            def exits(tgt):
+                reach = f.reachable_from(tgt, avoid=local_call_blocks)
+                return any(b in reach for b in f.exits())
+            if exits(t_true) and not exits(t_false):
+                cont_rel = REL_NEG[rel]
+            elif exits(t_false) and not exits(t_true):
+                cont_rel = rel
+            else:
+                out.append(("loop-test", "the precedence test of the climbing loop does not decide between returning and parsing on",
+                            "%s:%d" % (f.file, st["line"])))
+                continue
+            if cont_rel != "Ge":
+                out.append(("comparison", "the climbing loop goes on when token_precedence %s minimum (must be >=): equal precedence would "
+                                          "associate to the right / operators would be skipped" % {"Gt": ">", "Le": "<=", "Lt": "<"}.get(cont_rel, cont_rel),
+                            "%s:%d" % (f.file, st["line"])))
+        else:
+            # both sides are token precedences: the extension test guarding the recursive call
+            guarded = [c for c in rec if f.dominates(t_true, c.bb) or f.dominates(t_false, c.bb)]
+            if not guarded:
+                continue
+            seen_ext = True
+            on_true = f.dominates(t_true, guarded[0].bb)
+            rel = op if on_true else REL_NEG[op]                  # l_ REL r_ holds where the recursive call is
+            # orient as (current REL next): current is the side that also feeds the `+ 1`
+            def same(a, b):
+                if a is None or a["k"] not in ("copy", "move") or b["k"] not in ("copy", "move"):
+                    return False
+                oa = set((o.kind, o.call.bb if o.call else (o.arg if o.kind == "arg" else None)) for o in F.origins(f, a, depth=6, through_calls=False))
+                ob = set((o.kind, o.call.bb if o.call else (o.arg if o.kind == "arg" else None)) for o in F.origins(f, b, depth=6, through_calls=False))
+                return bool(oa & ob)
+            if same(inc_left, r_) and not same(inc_left, l_):
+                rel = REL_SWAP[rel]
+            if rel != "Lt":
+                out.append(("comparison", "the right operand is extended when current precedence %s next precedence (must be <): with `<=` "
+                                          "equal precedence associates to the right" % {"Le": "<=", "Gt": ">", "Ge": ">="}.get(rel, rel),
+                            "%s:%d" % (f.file, st["line"])))
+    if not seen_loop:
+        out.append(("loop-test", "no test of the token precedence against the minimum precedence parameter", f.loc()))
+    if not seen_ext:
+        out.append(("extend-test", "the recursive call for the right operand is not guarded by a comparison of the two precedences", rec[0].loc()))
+    return out
+
+
 def run(R):
     R.rule("C13.table", "precedence constants: min(p(::), p([), p(.)) > p(*) = p(/) > p(+) = p(-) > p(comparison) = p(IS) = p(IS NOT) = p(IN) = "
                         "p(NOT IN) > p(AND) > p(OR) >= 0 and every non-operator token maps below 0")
@@ -285,22 +388,13 @@ def run(R):
         R.violation("C13.assoc", "shape", "parse_binary_operator_rhs: climbing loop not recognised (%d recursive calls, %d precedence comparisons)"
                     % (len(rec), len(cmp_ops)), [f.loc()])
     else:
-        bad = [s for i, s in cmp_ops if s["rv"]["op"] != "Lt"]
-        inc_ok = False
-        for c in rec:
-            for o in F.origins(f, c.args[1], depth=6, through_calls=False):
-                if o.kind == "binop" and o.extra in ("Add", "AddWithOverflow"):
-                    cs = [x.get("int") for x in (o.place["l"], o.place["r"]) if x["k"] == "const"]
-                    if cs == [1]:
-                        inc_ok = True
-        if bad:
-            R.violation("C13.assoc", "comparison", "the climbing loop compares precedences with %s instead of `<`: equal precedence would "
-                                                   "associate to the right / operators would be skipped" % [s["rv"]["op"] for s in bad],
-                        ["%s:%d" % (f.file, bad[0]["line"])])
-        elif not inc_ok:
-            R.violation("C13.assoc", "increment", "the right operand is not parsed at token_precedence + 1", [rec[0].loc()])
+        problems = _climb_semantics(P, f, rec, cmp_ops)
+        if problems:
+            for key, msg, loc_ in problems:
+                R.violation("C13.assoc", key, msg, [loc_])
         else:
-            R.ok("C13.assoc", "loop", "`<` on both tests, recursion at token_precedence + 1", rec[0].loc())
+            R.ok("C13.assoc", "loop", "loop continues iff token_precedence >= minimum; right operand extended iff the next operator binds "
+                                      "strictly tighter, at token_precedence + 1", rec[0].loc())
     # ---- which operators may refuse to extend their right operand
     _climb_exclusions(R, f, rec, p if not missing else None)
     # ---- prefix operators
@@ -313,16 +407,31 @@ def run(R):
     uf = ufs[0]
     calls = [c for c in uf.calls if any(k in wrappers for k in P.callee_keys(uf, c))]
     levels = {}
+    ufa = PR.facts(uf)
+
+    def arm_at(bb):
+        for w in (ufa.worlds_at(bb) or []):
+            names, star = _variants_of_world(ufa, w)
+            if "Not" in names:
+                return "not"
+        return "minus"
     for c in calls:
-        lv = c.args[1].get("int") if c.args[1]["k"] == "const" else None
-        arm = "minus"
-        for gsw, lab, tgt in F.guards_dominating(uf, c.bb):
-            info = F.switch_info(uf, gsw)
-            if info and info[0] == "discr":
-                vn = F.variant_of_label(info[1], lab)
-                if vn == "Not":
-                    arm = "not"
-        levels[arm] = lv
+        if c.args[1]["k"] == "const":
+            arm = "minus"
+            ws = ufa.worlds_at(c.bb) or []
+            if ws and all("Not" in _variants_of_world(ufa, w)[0] for w in ws):
+                arm = "not"
+            levels[arm] = c.args[1].get("int")
+        else:
+            # the level is chosen into a local first: one constant per arm
+            for i, st in uf.stmts():
+                if st["k"] == "assign" and st["rv"]["k"] == "use" and st["rv"]["op"]["k"] == "const" and "int" in st["rv"]["op"] and \
+                        st["rv"]["op"].get("ty") == "i32" and c.bb in uf.reachable_from(i):
+                    feeds = any(o.kind == "const" and o.const is st["rv"]["op"] for o in F.origins(uf, c.args[1], depth=6, through_calls=False))
+                    if feeds:
+                        ws = ufa.worlds_at(i) or []
+                        arm = "not" if ws and all("Not" in _variants_of_world(ufa, w)[0] for w in ws) else "minus"
+                        levels[arm] = st["rv"]["op"]["int"]
     if not missing:
         cmpl = p["<"]
         ok_not = levels.get("not") is not None and p["AND"] < levels["not"] <= cmpl
